@@ -131,6 +131,447 @@ func (pr *Program) RunAnalyses(prop string) []*Obligation {
 	switch prop {
 	case "C15":
 		return pr.AnalysisC15ClosureFrames()
+	case "C16":
+		return pr.AnalysisC16()
 	}
 	return nil
+}
+
+// MapRanges lists every range statement over a map in consensus packages (C16).
+func (pr *Program) MapRanges() []string {
+	var out []string
+	for _, path := range pr.sortedPkgs() {
+		if !consensusPkg(path) {
+			continue
+		}
+		pi := pr.Pkgs[path]
+		info := pi.P.TypesInfo
+		for _, fd := range enclosingFuncs(pi) {
+			ast.Inspect(fd.Body, func(n ast.Node) bool {
+				if rs, ok := n.(*ast.RangeStmt); ok {
+					if t := info.TypeOf(rs.X); t != nil {
+						if _, isMap := t.Underlying().(*types.Map); isMap {
+							out = append(out, pr.declTag(pi, fd)+" @ "+pr.Pos(rs.Pos()))
+						}
+					}
+				}
+				return true
+			})
+		}
+	}
+	return out
+}
+
+// ---------- C16: sources of nondeterminism ----------
+
+var ambientFuncs = map[string]bool{
+	"time.Now": true, "time.Since": true, "time.Until": true, "time.After": true, "time.Tick": true, "time.NewTimer": true, "time.NewTicker": true, "time.Sleep": true,
+	"os.Getenv": true, "os.Environ": true, "os.Hostname": true, "os.Getpid": true, "os.LookupEnv": true, "os.Getwd": true,
+	"runtime.NumGoroutine": true, "runtime.Gosched": true, "runtime.NumCPU": true, "runtime.GOMAXPROCS": true, "runtime.GC": true, "runtime.ReadMemStats": true,
+}
+
+// AnalysisC16 emits one ambient-read frame obligation per consensus package and one commutation obligation per map range.
+func (pr *Program) AnalysisC16() []*Obligation {
+	var out []*Obligation
+	x := NewExec(pr)
+	reach := pr.reachableFromEntryPoints()
+	for _, path := range pr.sortedPkgs() {
+		if !consensusPkg(path) {
+			continue
+		}
+		pi := pr.Pkgs[path]
+		info := pi.P.TypesInfo
+		var hits []string
+		for _, file := range pi.P.Syntax {
+			fname := pr.Fset.Position(file.Pos()).Filename
+			if strings.HasSuffix(fname, "_simulation.go") || strings.HasSuffix(fname, "zz_verif_contracts.go") {
+				continue
+			}
+			for _, d := range file.Decls {
+				fd, ok := d.(*ast.FuncDecl)
+				if !ok || fd.Body == nil {
+					continue
+				}
+				// only code reachable from the state-transition entry points takes part in consensus
+				if fobj, ok := info.Defs[fd.Name].(*types.Func); !ok || !reach[pr.Funcs[fobj]] {
+					continue
+				}
+				nRange := 0
+				ast.Inspect(fd.Body, func(n ast.Node) bool {
+					switch n := n.(type) {
+					case *ast.GoStmt:
+						hits = append(hits, "go statement at "+pr.Pos(n.Pos()))
+					case *ast.SelectStmt:
+						hits = append(hits, "select statement at "+pr.Pos(n.Pos()))
+					case *ast.CallExpr:
+						var obj types.Object
+						switch f := unparen(n.Fun).(type) {
+						case *ast.SelectorExpr:
+							if info.Selections[f] == nil {
+								obj = info.Uses[f.Sel]
+							}
+						case *ast.Ident:
+							obj = info.Uses[f]
+						}
+						if fn, ok := obj.(*types.Func); ok && fn.Pkg() != nil {
+							full := fn.Pkg().Path() + "." + fn.Name()
+							if ambientFuncs[full] || fn.Pkg().Path() == "math/rand" || fn.Pkg().Path() == "crypto/rand" || fn.Pkg().Path() == "math/rand/v2" {
+								if !(fn.Pkg().Path() == "math/rand" && (fn.Name() == "New" || fn.Name() == "NewSource")) {
+									hits = append(hits, full+" at "+pr.Pos(n.Pos()))
+								}
+							}
+							if fn.Pkg().Path() == "fmt" {
+								for _, a := range n.Args {
+									if tv, ok := info.Types[a]; ok && tv.Value != nil && strings.Contains(tv.Value.ExactString(), "%p") {
+										hits = append(hits, "pointer formatting %p at "+pr.Pos(n.Pos()))
+									}
+								}
+							}
+						}
+					case *ast.RangeStmt:
+						if t := info.TypeOf(n.X); t != nil {
+							if _, isMap := t.Underlying().(*types.Map); isMap {
+								nRange++
+								ok, why := pr.mapRangeOrderIndependent(x, pi, fd, n)
+								name := fmt.Sprintf("%s/commute#c16-maprange@%d", pr.declTag(pi, fd), nRange)
+								out = append(out, staticObl(name, "C16", "commute", ok, pr.Pos(n.Pos()), why))
+							}
+						}
+					}
+					return true
+				})
+			}
+		}
+		src := "no wall-clock, random, environment, scheduler or pointer-identity read in " + pr.pkgRel(path)
+		if len(hits) > 0 {
+			src = "ambient reads: " + strings.Join(hits, "; ")
+		}
+		out = append(out, staticObl(pr.pkgRel(path)+"/frame#c16-ambient", "C16", "frame", len(hits) == 0, pr.pkgRel(path), src))
+	}
+	return out
+}
+
+func isCommutativeAccType(t types.Type) bool {
+	if k, ok := primNamed(t); ok {
+		return k == "sdkint" || k == "dec" || k == "sdkuint"
+	}
+	if b, ok := t.Underlying().(*types.Basic); ok {
+		return b.Info()&types.IsInteger != 0
+	}
+	return false
+}
+
+// mapRangeOrderIndependent recognises two disciplines under which the effect of a map range does not depend on
+// the iteration order: (a) a commutative exact accumulation whose per-item term writes nothing but the item itself,
+// (b) collect-then-sort.
+func (pr *Program) mapRangeOrderIndependent(x *Exec, pi *PkgInfo, fd *ast.FuncDecl, rs *ast.RangeStmt) (bool, string) {
+	info := pi.P.TypesInfo
+	if len(rs.Body.List) != 1 {
+		return false, "map range body is not a single accumulation or append statement"
+	}
+	as, ok := rs.Body.List[0].(*ast.AssignStmt)
+	if !ok || len(as.Lhs) != 1 || len(as.Rhs) != 1 {
+		return false, "map range body is not a single assignment"
+	}
+	lhs, ok := as.Lhs[0].(*ast.Ident)
+	if !ok {
+		return false, "map range assigns to a non-variable"
+	}
+	lobj := info.ObjectOf(lhs)
+	keyObjs := map[types.Object]bool{}
+	for _, e := range []ast.Expr{rs.Key, rs.Value} {
+		if id, ok := e.(*ast.Ident); ok && id.Name != "_" {
+			if o := info.ObjectOf(id); o != nil {
+				keyObjs[o] = true
+			}
+		}
+	}
+	mentions := func(e ast.Expr, o types.Object) bool {
+		found := false
+		ast.Inspect(e, func(n ast.Node) bool {
+			if id, ok := n.(*ast.Ident); ok && info.ObjectOf(id) == o {
+				found = true
+			}
+			return !found
+		})
+		return found
+	}
+	// (b) collect-then-sort
+	if call, ok := as.Rhs[0].(*ast.CallExpr); ok {
+		if id, ok := call.Fun.(*ast.Ident); ok && id.Name == "append" && len(call.Args) == 2 {
+			if a0, ok := call.Args[0].(*ast.Ident); ok && info.ObjectOf(a0) == lobj {
+				if pr.sortedBeforeUse(pi, fd, rs, lobj) {
+					return true, "collect-then-sort: the collected slice is sorted before any other use"
+				}
+				return false, "the slice collected from the map is used before it is sorted"
+			}
+		}
+	}
+	// (a) commutative accumulation
+	if !isCommutativeAccType(lobj.Type()) {
+		return false, "accumulator type is not an exact commutative monoid (e.g. float or slice)"
+	}
+	var term ast.Expr
+	switch as.Tok.String() {
+	case "+=":
+		term = as.Rhs[0]
+	case "=":
+		switch r := as.Rhs[0].(type) {
+		case *ast.CallExpr: // acc = acc.Add(E)
+			if se, ok := r.Fun.(*ast.SelectorExpr); ok && se.Sel.Name == "Add" && len(r.Args) == 1 {
+				if b, ok := se.X.(*ast.Ident); ok && info.ObjectOf(b) == lobj {
+					term = r.Args[0]
+				}
+			}
+		case *ast.BinaryExpr: // acc = acc + E
+			if r.Op.String() == "+" {
+				if b, ok := r.X.(*ast.Ident); ok && info.ObjectOf(b) == lobj {
+					term = r.Y
+				}
+			}
+		}
+	}
+	if term == nil {
+		return false, "map range body is not of the form acc = acc.Add(E) / acc += E"
+	}
+	if mentions(term, lobj) {
+		return false, "the accumulated term reads the accumulator"
+	}
+	ws := WriteSet{}
+	x.collectWrites(term, info, pi, ws, map[*FuncInfo]bool{})
+	if len(ws) > 0 {
+		return false, "the accumulated term writes chain state"
+	}
+	// pointer arguments must be the item itself (distinct map keys are distinct objects)
+	bad := ""
+	ast.Inspect(term, func(n ast.Node) bool {
+		call, ok := n.(*ast.CallExpr)
+		if !ok {
+			return true
+		}
+		for _, a := range call.Args {
+			t := info.TypeOf(a)
+			if t == nil {
+				continue
+			}
+			_, isPtr := t.Underlying().(*types.Pointer)
+			_, isIface := t.Underlying().(*types.Interface)
+			if isPtr || isIface {
+				if id, ok := a.(*ast.Ident); !ok || !keyObjs[info.ObjectOf(id)] {
+					bad = "a pointer/interface argument other than the map item is passed to a call in the accumulated term"
+				}
+			}
+		}
+		return true
+	})
+	if bad != "" {
+		return false, bad
+	}
+	return true, "commutative exact accumulation over distinct items (order-independent)"
+}
+
+// sortedBeforeUse: after the loop, the first statement using the slice sorts it, or passes it to a function of this
+// package whose first use of the parameter is a sort call.
+func (pr *Program) sortedBeforeUse(pi *PkgInfo, fd *ast.FuncDecl, rs *ast.RangeStmt, obj types.Object) bool {
+	info := pi.P.TypesInfo
+	isSortCall := func(call *ast.CallExpr, o types.Object, inf *types.Info) bool {
+		se, ok := call.Fun.(*ast.SelectorExpr)
+		if !ok {
+			return false
+		}
+		if f, ok := inf.Uses[se.Sel].(*types.Func); ok && f.Pkg() != nil && (f.Pkg().Path() == "sort" || f.Pkg().Path() == "slices") && len(call.Args) > 0 {
+			if id, ok := call.Args[0].(*ast.Ident); ok && inf.ObjectOf(id) == o {
+				return true
+			}
+		}
+		return false
+	}
+	var next ast.Stmt
+	var find func(list []ast.Stmt) bool
+	find = func(list []ast.Stmt) bool {
+		for i, st := range list {
+			if st == ast.Stmt(rs) {
+				if i+1 < len(list) {
+					next = list[i+1]
+				}
+				return true
+			}
+			found := false
+			ast.Inspect(st, func(n ast.Node) bool {
+				if b, ok := n.(*ast.BlockStmt); ok && !found {
+					if find(b.List) {
+						found = true
+					}
+				}
+				return !found
+			})
+			if found {
+				return true
+			}
+		}
+		return false
+	}
+	find(fd.Body.List)
+	if next == nil {
+		return false
+	}
+	var call *ast.CallExpr
+	switch s := next.(type) {
+	case *ast.ExprStmt:
+		call, _ = s.X.(*ast.CallExpr)
+	case *ast.ReturnStmt:
+		if len(s.Results) == 1 {
+			call, _ = s.Results[0].(*ast.CallExpr)
+		}
+	}
+	if call == nil {
+		return false
+	}
+	if isSortCall(call, obj, info) {
+		return true
+	}
+	// passed to a local function that sorts its parameter first
+	var callee *types.Func
+	switch f := call.Fun.(type) {
+	case *ast.Ident:
+		callee, _ = info.Uses[f].(*types.Func)
+	case *ast.SelectorExpr:
+		if sel := info.Selections[f]; sel != nil {
+			callee, _ = sel.Obj().(*types.Func)
+		}
+	}
+	fi := pr.Funcs[callee]
+	if callee == nil || fi == nil || fi.Decl.Body == nil {
+		return false
+	}
+	argIdx := -1
+	for i, a := range call.Args {
+		if id, ok := a.(*ast.Ident); ok && info.ObjectOf(id) == obj {
+			argIdx = i
+		}
+	}
+	if argIdx < 0 {
+		return false
+	}
+	sig := callee.Type().(*types.Signature)
+	if argIdx >= sig.Params().Len() {
+		return false
+	}
+	param := sig.Params().At(argIdx)
+	cinfo := fi.Pkg.P.TypesInfo
+	for _, st := range fi.Decl.Body.List {
+		uses := false
+		ast.Inspect(st, func(n ast.Node) bool {
+			if id, ok := n.(*ast.Ident); ok && cinfo.ObjectOf(id) == param {
+				uses = true
+			}
+			return !uses
+		})
+		if !uses {
+			continue
+		}
+		// allow a leading emptiness test: if len(p) == 0 { return ... }
+		if is, ok := st.(*ast.IfStmt); ok {
+			if be, ok := is.Cond.(*ast.BinaryExpr); ok {
+				if c, ok := be.X.(*ast.CallExpr); ok {
+					if id, ok := c.Fun.(*ast.Ident); ok && id.Name == "len" {
+						continue
+					}
+				}
+			}
+		}
+		if es, ok := st.(*ast.ExprStmt); ok {
+			if c, ok := es.X.(*ast.CallExpr); ok && isSortCall(c, param, cinfo) {
+				return true
+			}
+		}
+		return false
+	}
+	return false
+}
+
+// reachableFromEntryPoints computes the functions of /repo reachable from the state-transition entry points:
+// message servers, begin/end blockers, genesis init/export, the app's ABCI methods and the wasm custom plugins.
+func (pr *Program) reachableFromEntryPoints() map[*FuncInfo]bool {
+	if pr.reach != nil {
+		return pr.reach
+	}
+	x := NewExec(pr)
+	reach := map[*FuncInfo]bool{}
+	var work []*FuncInfo
+	add := func(fi *FuncInfo) {
+		if fi != nil && !reach[fi] {
+			reach[fi] = true
+			work = append(work, fi)
+		}
+	}
+	for _, fi := range pr.Funcs {
+		if !consensusPkg(fi.Pkg.Path) {
+			continue
+		}
+		n := fi.Obj.Name()
+		recv := ""
+		if sig := fi.Obj.Type().(*types.Signature); sig.Recv() != nil {
+			recv = namedPath(sig.Recv().Type())
+		}
+		switch {
+		case n == "BeginBlocker" || n == "EndBlocker" || n == "BeginBlock" || n == "EndBlock" || n == "InitGenesis" || n == "ExportGenesis" || n == "InitChainer":
+			add(fi)
+		case strings.HasSuffix(recv, ".msgServer") || strings.HasSuffix(recv, ".MsgServer"):
+			add(fi)
+		case strings.Contains(fi.Pkg.Path, "/app/wasm") && (n == "DispatchMsg" || n == "CustomQuerier" || strings.HasPrefix(n, "Custom")):
+			add(fi)
+		case n == "OnRecvPacket" || n == "OnAcknowledgementPacket" || n == "OnTimeoutPacket":
+			add(fi)
+		}
+	}
+	for len(work) > 0 {
+		fi := work[len(work)-1]
+		work = work[:len(work)-1]
+		if fi.Decl.Body == nil {
+			continue
+		}
+		info := fi.Pkg.P.TypesInfo
+		ast.Inspect(fi.Decl.Body, func(n ast.Node) bool {
+			call, ok := n.(*ast.CallExpr)
+			if !ok {
+				return true
+			}
+			var obj types.Object
+			hint := ""
+			switch f := unparen(call.Fun).(type) {
+			case *ast.Ident:
+				obj = info.Uses[f]
+			case *ast.SelectorExpr:
+				if sel := info.Selections[f]; sel != nil {
+					obj = sel.Obj()
+					if in, ok := f.X.(*ast.SelectorExpr); ok {
+						hint = in.Sel.Name
+					}
+				} else {
+					obj = info.Uses[f.Sel]
+				}
+			}
+			fn, ok := obj.(*types.Func)
+			if !ok {
+				return true
+			}
+			if callee, ok := pr.Funcs[fn]; ok {
+				add(callee)
+				return true
+			}
+			if callee, ok := pr.Funcs[fn.Origin()]; ok {
+				add(callee)
+				return true
+			}
+			if sig := fn.Type().(*types.Signature); sig.Recv() != nil {
+				if _, isIface := sig.Recv().Type().Underlying().(*types.Interface); isIface {
+					add(x.Pr.ResolveIfaceMethod(sig.Recv().Type(), fn.Name(), hint))
+				}
+			}
+			return true
+		})
+	}
+	pr.reach = reach
+	return reach
 }
